@@ -179,6 +179,25 @@ func emitStructView(out *Out, r *Rng) {
 				}
 			}
 		}
+		// every proof hands out the core claim its JSON carries (all three typed kinds; an untyped proof with a well-formed claim too)
+		if len(vc.Proof) == len(proofs) {
+			for i := range vc.Proof {
+				pm, _ := proofs[i].(map[string]any)
+				hx, _ := pm["coreClaim"].(string)
+				var ref core.Claim
+				wellFormed := ref.FromHex(hx) == nil
+				for _, obj := range []verifiable.CredentialProof{vc.Proof[i], vc2.Proof[i]} {
+					cl, err := obj.GetCoreClaim()
+					if wellFormed {
+						if err != nil || cl == nil {
+							why = append(why, fmt.Sprintf("proof %d (%T): GetCoreClaim fails (%v) although the JSON carries a well-formed claim", i, obj, err))
+						} else if h, _ := cl.Hex(); h != hx {
+							why = append(why, fmt.Sprintf("proof %d (%T): GetCoreClaim gives another claim than the JSON carries", i, obj))
+						}
+					}
+				}
+			}
+		}
 		impl["kinds"] = kinds
 		reg := &verifiable.CredentialStatusResolverRegistry{}
 		reg.Register(verifiable.SparseMerkleTreeProof, statusResolver{func(st verifiable.CredentialStatus) (verifiable.RevocationStatus, error) {
